@@ -593,9 +593,24 @@ func (g *c02Gen) script() []Op {
 		b, cls := g.jsonBytes()
 		ops = append(ops, Op{Kind: opVal, Raw: b})
 		g.hit("script:writevalue-" + cls)
-	case x < 80: // nested MarshalEncode
-		ops = append(ops, Op{Kind: opNested, Arg: g.n(8), Arg2: g.n(6)})
+	case x < 78: // nested MarshalEncode
+		ops = append(ops, Op{Kind: opNested, Arg: g.n(14), Arg2: g.n(6)})
 		g.hit("script:nested-marshal")
+	case x < 85: // an object written by hand: names from a small pool (so they repeat), values of every sort in between
+		ops = append(ops, Op{Kind: opTok, Arg: tokBeginObject})
+		for i, n := 0, 2+g.n(3); i < n; i++ {
+			ops = append(ops, Op{Kind: opTok, Arg: 12 + g.n(2)}) // "a" or "b"
+			switch y := g.n(10); {
+			case y < 5:
+				ops = append(ops, Op{Kind: opNested, Arg: 8 + g.n(6), Arg2: 0}) // untyped maps & co through MarshalEncode
+			case y < 7:
+				ops = append(ops, Op{Kind: opNested, Arg: g.n(14), Arg2: g.n(6)})
+			default:
+				ops = append(ops, Op{Kind: opOneValue, Arg: g.n(6)})
+			}
+		}
+		ops = append(ops, Op{Kind: opTok, Arg: tokEndObject})
+		g.hit("script:object-by-hand-with-repeated-names")
 	default: // random walk over the encoder API
 		n := 1 + g.n(7)
 		for i := 0; i < n; i++ {
@@ -614,6 +629,11 @@ func (g *c02Gen) script() []Op {
 			}
 		}
 		g.hit("script:random-walk")
+	}
+	for _, o := range ops {
+		if o.Kind == opNested && o.Arg%14 == 13 && g.cs != nil {
+			g.cs.multiMap = true // that nested value is a map with two entries: iteration order is random
+		}
 	}
 	return ops
 }
@@ -674,7 +694,7 @@ var (
 		reflect.TypeFor[uintptr](), reflect.TypeFor[float32](), reflect.TypeFor[float64](), reflect.TypeFor[string]()}
 	c02UserTypes = []reflect.Type{reflect.TypeFor[UJ](), reflect.TypeFor[UJP](), reflect.TypeFor[UTo](), reflect.TypeFor[UToP](), reflect.TypeFor[UT](), reflect.TypeFor[UTP](),
 		reflect.TypeFor[UA](), reflect.TypeFor[UAT](), reflect.TypeFor[UJT](), reflect.TypeFor[UAll](), reflect.TypeFor[UZ](), reflect.TypeFor[UStr](), reflect.TypeFor[UIntTo]()}
-	c02Compiled = []reflect.Type{reflect.TypeFor[CTimes](), reflect.TypeFor[CTimesCustom](), reflect.TypeFor[CEmbed](), reflect.TypeFor[CEmbedMap](), reflect.TypeFor[CEmbedPtrRaw](), reflect.TypeFor[CTextKeyed](), reflect.TypeFor[CRecursive]()}
+	c02Compiled = []reflect.Type{reflect.TypeFor[CDupKeys](), reflect.TypeFor[COmit](), reflect.TypeFor[COmit](), reflect.TypeFor[CTimes](), reflect.TypeFor[CTimesCustom](), reflect.TypeFor[CEmbed](), reflect.TypeFor[CEmbedMap](), reflect.TypeFor[CEmbedPtrRaw](), reflect.TypeFor[CTextKeyed](), reflect.TypeFor[CRecursive]()}
 	c02Ifaces   = []reflect.Type{reflect.TypeFor[any](), reflect.TypeFor[any](), reflect.TypeFor[IfaceJ](), reflect.TypeFor[IfaceT](), reflect.TypeFor[IfaceTo]()}
 	c02KeyTypes = []reflect.Type{reflect.TypeFor[string](), reflect.TypeFor[string](), reflect.TypeFor[int](), reflect.TypeFor[int8](), reflect.TypeFor[int64](), reflect.TypeFor[uint](),
 		reflect.TypeFor[uint8](), reflect.TypeFor[uint64](), reflect.TypeFor[float32](), reflect.TypeFor[float64](), reflect.TypeFor[bool](), reflect.TypeFor[UT](), reflect.TypeFor[UStr](),
@@ -1015,6 +1035,60 @@ func (g *c02Gen) genValue(t reflect.Type, d int) reflect.Value {
 			h = g.timeValue()
 		}
 		return reflect.ValueOf(CTimes{t, t, t, t, &t, h, d, d})
+	case reflect.TypeFor[CDupKeys]():
+		g.kind("compiled:CDupKeys")
+		g.cs.userCode = true
+		anyv := func() any {
+			return []any{map[string]any{"x": 1}, map[string]any{"x": []any{}}, 2, "s", []any{1}, map[string]any{}, nil, map[string]int{"t": 1}}[g.n(8)]
+		}
+		c := CDupKeys{M: map[UStr]any{}}
+		keys := []UStr{"Rdup", "dup", "plain", "Rplain", "a", "Ra"}
+		for i, n := 0, 1+g.n(4); i < n; i++ {
+			c.M[keys[g.n(len(keys))]] = anyv()
+		}
+		if g.p(0.5) {
+			c.N = map[UT]any{}
+			for i, n := 0, 1+g.n(3); i < n; i++ {
+				c.N[UT{&Beh{ID: -6, Bytes: []byte([]string{"k", "k", "l"}[g.n(3)]), tr: g.cs.tr}}] = anyv()
+			}
+		}
+		if len(c.M) > 1 || len(c.N) > 1 {
+			g.cs.multiMap = true
+		}
+		return reflect.ValueOf(c)
+	case reflect.TypeFor[COmit]():
+		g.kind("compiled:COmit")
+		empties := []any{[]int{}, map[string]int{}, []any{}, map[string]any{}, "", (*int)(nil), struct{}{}, &struct{}{}, jsontext.Value("null"), jsontext.Value(`""`), []string(nil)}
+		anyv := func() any { // empty-producing or not
+			if g.p(0.6) {
+				return empties[g.n(len(empties))]
+			}
+			return []any{1, "x", []int{1}, map[string]int{"k": 1}, nil}[g.n(5)]
+		}
+		emptyUJ := func() *Beh {
+			b := g.newBeh(false)
+			if g.p(0.7) {
+				b.Bytes, b.Ret, b.Early, b.NilOut = []byte([]string{`null`, `""`, `{}`, `[]`, ` [ ] `, `"x"`}[g.n(6)]), retNil, false, false
+			}
+			return b
+		}
+		c := COmit{A: anyv(), B: g.n(3), D: UJ{emptyUJ()}, E: anyv(), F: g.str(), J: anyv()}
+		if g.p(0.6) {
+			c.C = &struct{}{}
+		}
+		if g.p(0.6) {
+			c.G = UJ{emptyUJ()}
+		}
+		if g.p(0.6) {
+			c.H = map[string]any{}
+			if g.p(0.3) {
+				c.H["k"] = 1
+			}
+		}
+		if g.p(0.6) {
+			c.I = &[]int{}
+		}
+		return reflect.ValueOf(c)
 	case reflect.TypeFor[CTimesCustom]():
 		g.kind("compiled:CTimesCustom")
 		t := g.timeValue()
@@ -1472,6 +1546,28 @@ func (g *c02Gen) genOpts() {
 			cs.optNames = append(cs.optNames, o.name)
 			g.hit("opt:" + o.name)
 			g.hit("opt:raw-affecting-option-with-raw-content")
+		}
+	}
+	if g.p(0.25) { // the whitespace options in every combination (they interact: unwriting of omitempty members, fast paths)
+		ws := []c02Opt{
+			{"SpaceAfterComma=true", func(*c02Gen) jsonv2.Options { return jsontext.SpaceAfterComma(true) }},
+			{"SpaceAfterColon=true", func(*c02Gen) jsonv2.Options { return jsontext.SpaceAfterColon(true) }},
+			{"Multiline=true", func(*c02Gen) jsonv2.Options { return jsontext.Multiline(true) }},
+			{"WithIndent", func(g *c02Gen) jsonv2.Options { return jsontext.WithIndent([]string{" ", "\t", "  "}[g.n(3)]) }},
+			{"WithIndentPrefix", func(g *c02Gen) jsonv2.Options { return jsontext.WithIndentPrefix([]string{" ", "\t\t"}[g.n(2)]) }},
+			{"SpaceAfterComma=false", func(*c02Gen) jsonv2.Options { return jsontext.SpaceAfterComma(false) }},
+			{"Multiline=false", func(*c02Gen) jsonv2.Options { return jsontext.Multiline(false) }},
+		}
+		any := false
+		for _, o := range ws {
+			if g.p(0.4) {
+				cs.opts = append(cs.opts, o.mk(g))
+				cs.optNames = append(cs.optNames, o.name)
+				any = true
+			}
+		}
+		if any {
+			g.hit("opt:whitespace-combination")
 		}
 	}
 	if (c02HasFormatTag(cs.typ, map[reflect.Type]bool{}) && g.p(0.85)) || g.p(0.05) { // `format` tags are honoured only with this option
@@ -1954,14 +2050,26 @@ func c02Judge(c *Ctx, cs *c02Case, runs []c02Run, hits map[string]int64, pend *[
 				hits["result:panic-appendtext-contract"]++
 				continue
 			}
-			if strings.Contains(run.stack, "objectNamespaceStack") && run.tr.RelaxDup && run.tr.Swallowed > 0 && !cs.effDup {
-				// same root cause, second route: a nested MarshalEncode(…, AllowDuplicateNames(true)) of the user code failed and
-				// left objects open that were begun without a namespace; the call's options are restored, the user code swallows
-				// the error and finishes those objects by hand: name → Namespaces.Last(), `}` → Namespaces.pop() on an empty stack
+			if strings.Contains(run.stack, "objectNamespaceStack") && run.tr.DupDesync {
+				// same root cause (D9), routes 2 and 3: user code made a nested MarshalEncode whose AllowDuplicateNames differs from
+				// the enclosing coder's while an object was open around it, or which returned (failed) leaving objects open that
+				// it had begun; a later name / `}` then meets a namespace stack that is out of step with the token stack
 				d := c02Describe(cs, run)
 				d["panic"] = fmt.Sprint(run.pan)
 				c.Violate("panic-namespace-after-option-change", run.ep, run.out, d)
 				hits["result:panic-namespace-after-option-change"]++
+				continue
+			}
+			if run.tr.DupToggled && strings.Contains(run.stack, "copyQuotedBuffer") && strings.Contains(run.stack, "wrapSyntacticError") {
+				// a DIFFERENT defect (D10): a string token at a name position is rejected with errInvalidNamespace by
+				// Tokens.appendString() AFTER Names.ReplaceLastQuotedOffset(pos) was already executed (the earlier isValidNamespace
+				// test is skipped while AllowDuplicateNames is on); the offset points into bytes that were never committed to
+				// e.Buf, and computing the error's JSON pointer slices out of range.  Needs a namespace invalidated by a failed
+				// strict nested call and duplicates allowed again afterwards, i.e. a per-call toggle of AllowDuplicateNames.
+				d := c02Describe(cs, run)
+				d["panic"] = fmt.Sprint(run.pan)
+				c.Violate("panic-name-offset-on-rejected-token", run.ep, run.out, d)
+				hits["result:panic-name-offset-on-rejected-token"]++
 				continue
 			}
 			if run.encDup && !run.callDup && strings.Contains(run.stack, "objectNamespaceStack.Last") {
